@@ -15,7 +15,8 @@ Each obligation is (name, path condition, goal); `solve()` discharges `pc => goa
 for `unknown`, with the cvc5 and z3-4.8 binaries on the SMT-LIB dump.  A function that uses a
 construct outside the subset raises Unsupported: nothing is claimed about it.
 """
-import ast, os, subprocess, tempfile, time
+import ast
+import copy, os, subprocess, tempfile, time
 import z3
 from .values import *   # noqa
 from . import values as VV
@@ -559,7 +560,7 @@ class Engine:
             return VFn(z3.Function("attr." + node.attr, Fn, Fn)(base.t))
         if isinstance(base, (VStr, VLabel, VFloat, VInt, VTuple, VFn)):
             return VConc("method:" + node.attr, (base,))
-        if isinstance(base, VMaybeNone) and isinstance(base.val, (VStr, VLabel)):
+        if isinstance(base, VMaybeNone) and isinstance(base.val, (VStr, VLabel, VFn)):
             self.oblige(st, "attribute access on a value that is not None", z3.Not(base.isnone), "safety", node)
             return VConc("method:" + node.attr, (base.val,))
         raise Unsupported("attribute %s of %r (line %d)" % (node.attr, base, node.lineno))
@@ -806,7 +807,17 @@ class Engine:
         return isinstance(v, VRef) and isinstance(st.heap[v.addr], HRec)
 
     def binop(self, op, a, b, st, node):
+        if (isinstance(a, VMaybeNone) and isinstance(a.val, VRef)) or (isinstance(b, VMaybeNone) and isinstance(b.val, VRef)):
+            for x in (a, b):
+                if isinstance(x, VMaybeNone):
+                    self.oblige(st, "operand of + is not None", z3.Not(x.isnone), "safety", node)
+            a = a.val if isinstance(a, VMaybeNone) else a
+            b = b.val if isinstance(b, VMaybeNone) else b
         if self.is_np(a, st) or self.is_np(b, st):
+            return self.elementwise2(lambda x, y: self.binop(op, x, y, st, node), a, b, st, node)
+        if ((self.is_seq(a, st) and getattr(b, "np_scalar", False)) or (self.is_seq(b, st) and getattr(a, "np_scalar", False))) and \
+                not (isinstance(op, ast.Mult) and self.is_seq(a, st) and isinstance(b, VInt)):      # list * np.int64 is list repetition (list.__mul__ comes first)
+            # list (op) numpy scalar: numpy converts the list to an array and broadcasts
             return self.elementwise2(lambda x, y: self.binop(op, x, y, st, node), a, b, st, node)
         # list algebra
         if isinstance(op, ast.Add) and ((isinstance(a, VFn) and self.is_seq(b, st)) or (isinstance(b, VFn) and self.is_seq(a, st))):
@@ -1045,15 +1056,22 @@ class Engine:
                     self.oblige(st, "index is not None", z3.BoolVal(False), "safety", node)
                     raise PathEnd()
                 it = self.as_int(idx)
+
+                def item(k, o=o):
+                    r = o.get(k)
+                    if o.numpy and isinstance(r, (VInt, VFloat)):
+                        r = copy.copy(r)
+                        r.np_scalar = True          # an element of a numpy array is a numpy scalar (list + it broadcasts)
+                    return r
                 if getattr(idx, "nonneg", False):
                     self.oblige(st, "index in range", it < o.len, "safety", node)
-                    return o.get(it)
+                    return item(it)
                 self.oblige(st, "index in range", z3.And(it >= -o.len, it < o.len), "safety", node)
                 if z3.is_int_value(it) and it.as_long() >= 0:
-                    return o.get(it)
+                    return item(it)
                 if not st.silent and not self.feasible(st, z3.And(list(st.guards) + [it < 0])):
-                    return o.get(it)          # the index is non-negative on this path: no wrap-around term
-                return o.get(z3.If(it < 0, it + o.len, it))
+                    return item(it)          # the index is non-negative on this path: no wrap-around term
+                return item(z3.If(it < 0, it + o.len, it))
         raise Unsupported("subscript of %r (line %d)" % (base, node.lineno))
 
     def slice_bounds(self, o_len, sl, st):
